@@ -42,6 +42,9 @@ type scenario struct {
 	// DeeperFirst: a rule for a path below that of the rule under test is loaded before it (the place of the rule in the
 	// lookup structure exists already when the rule and its backtracking setting arrive)
 	DeeperFirst bool
+	// ViaOnErrorUpdate: the rule set arrives in an earlier version first which differs in nothing but the rule's on_error
+	// list, and is then updated to the version under test
+	ViaOnErrorUpdate bool
 }
 
 func (s scenario) String() string {
@@ -107,6 +110,8 @@ func build(s scenario, failing bool, extra []config.MechanismConfig) (*vkit.Worl
 			p.ErrorHandlers = append(p.ErrorHandlers, m)
 		}
 	}
+
+	addProto("x_e1", false) // an error handler only the earlier version of the rule refers to
 
 	for _, st := range []stages{s.D.stages, s.R.stages, {Authn: []string{"c_a1"}}} {
 		for i, id := range st.Authn {
@@ -185,6 +190,21 @@ func build(s scenario, failing bool, extra []config.MechanismConfig) (*vkit.Worl
 		if err = w.Load("deeper", deeper); err != nil {
 			return nil, fmt.Errorf("harness: deeper rule rejected: %w", err), nil
 		}
+	}
+
+	if s.ViaOnErrorUpdate {
+		earlier := r
+		earlier.ErrorHandler = []config.MechanismConfig{{"error_handler": "x_e1"}}
+
+		if len(r.ErrorHandler) == 1 && r.ErrorHandler[0]["error_handler"] == "x_e1" {
+			earlier.ErrorHandler = nil
+		}
+
+		if err = w.Load("under-test", earlier); err != nil {
+			return nil, nil, fmt.Errorf("earlier version: %w", err)
+		}
+
+		return w, nil, w.Update("under-test", r)
 	}
 
 	loadErr := w.Load("under-test", r)
@@ -333,6 +353,25 @@ func checkScenario(s scenario, fail func(string, ...any), exclBT bool) {
 
 	if got := send(wf, s, "POST"); strings.Join(got, ",") != strings.Join(failTrace, ",") {
 		fail("failure path executed %v, expected %v\n%s", got, failTrace, s)
+
+		return
+	}
+
+	// the same when the rule set was loaded in a version with another on_error list before and then updated
+	su := s
+	su.ViaOnErrorUpdate = true
+
+	wu, confErr, loadErr := build(su, true, nil)
+	if confErr != nil || loadErr != nil {
+		fail("rule set refused when it arrives as an update of a version differing in on_error only: %v %v\n%s", confErr, loadErr, su)
+
+		return
+	}
+
+	vkit.Trace.Reset()
+
+	if got := send(wu, su, "POST"); strings.Join(got, ",") != strings.Join(failTrace, ",") {
+		fail("failure path after an update which changed nothing but on_error executed %v, expected %v\n%s", got, failTrace, su)
 	}
 }
 
